@@ -255,12 +255,20 @@ Derived(body, n, S, inst) ==
 SetVar(S, n, v) == [S EXCEPT !.vars = [x \in (DOMAIN S.vars) \cup {n} |-> IF x = n THEN v ELSE S.vars[x]]]
 Fail(S) == [S EXCEPT !.ctl = "ood"]
 
-\* the instances of class c (in pool order) that satisfy the where clause
-Filter(S, c, q, haswhere, w) ==
-    IF ~haswhere THEN [q |-> q, ok |-> TRUE]
-    ELSE LET vals == [k \in DOMAIN q |-> EvalE(w, SetVar(S, "selected", VInst(c, q[k]))).v]
-         IN IF \E k \in DOMAIN q : vals[k].k # "bool" THEN [q |-> <<>>, ok |-> FALSE]
-            ELSE [q |-> SelectSeq(q, LAMBDA i : vals[Index(q, i)].v), ok |-> TRUE]
+\* the instances of q (class c, in the given order) that satisfy the where clause: [q, ok, s].  The clause is evaluated
+\* for one candidate after the other and what an invocation inside it does to the model stays done; a selection of a
+\* single instance (any / one) stops at the first candidate that satisfies the clause.
+RECURSIVE FilterT(_, _, _, _, _)
+FilterT(S, c, q, w, lazy) ==
+    IF q = <<>> THEN [q |-> <<>>, ok |-> TRUE, s |-> S]
+    ELSE LET r == EvalE(w, SetVar(S, "selected", VInst(c, q[1])))
+             S2 == [r.s EXCEPT !.vars = S.vars]
+         IN IF r.v.k # "bool" THEN [q |-> <<>>, ok |-> FALSE, s |-> S2]
+            ELSE IF r.v.v /\ lazy THEN [q |-> <<q[1]>>, ok |-> TRUE, s |-> S2]
+            ELSE LET R == FilterT(S2, c, Tail(q), w, lazy)
+                 IN [q |-> (IF r.v.v THEN <<q[1]>> ELSE <<>>) \o R.q, ok |-> R.ok, s |-> R.s]
+Filter(S, c, q, haswhere, w, lazy) ==
+    IF ~haswhere THEN [q |-> q, ok |-> TRUE, s |-> S] ELSE FilterT(S, c, q, w, lazy)
 
 RECURSIVE NavSeq(_, _, _, _)
 \* [c, q, ok]
@@ -342,10 +350,10 @@ ExecS(s, S) ==
                     IN IF R1 = <<>> THEN Fail(S)
                        ELSE LET R2 == Op(R1[1], u[1], y[1]) IN IF R2 = <<>> THEN Fail(S) ELSE [S EXCEPT !.m = R2[1]]
       [] s.t = "select_from" ->
-            LET F == Filter(S, s.k, S.m.pool[s.k], s.haswhere, s.w)
-            IN IF ~F.ok THEN Fail(S)
-               ELSE IF s.card = "many" THEN SetVar(S, s.v, VSet(s.k, F.q))
-               ELSE SetVar(S, s.v, IF F.q = <<>> THEN VEmpty(s.k) ELSE VInst(s.k, F.q[1]))
+            LET F == Filter(S, s.k, S.m.pool[s.k], s.haswhere, s.w, s.card # "many")
+            IN IF ~F.ok THEN Fail(F.s)
+               ELSE IF s.card = "many" THEN SetVar(F.s, s.v, VSet(s.k, F.q))
+               ELSE SetVar(F.s, s.v, IF F.q = <<>> THEN VEmpty(s.k) ELSE VInst(s.k, F.q[1]))
       [] s.t = "select_related" ->
             LET h == EvalE(s.h, S).v
                 start == CASE h.k = "inst" -> IF Live(S.m, h.c, h.i) THEN <<h.i>> ELSE <<0>>
@@ -355,10 +363,10 @@ ExecS(s, S) ==
             IN IF start = <<0>> \/ (h.k = "set" /\ \E j \in DOMAIN h.q : ~Live(S.m, h.c, h.q[j])) THEN Fail(S)
                ELSE LET N == NavSeq(S.m, h.c, start, s.chain)
                         D == Dedup(N.q)
-                        F == Filter(S, N.c, D, s.haswhere, s.w)
-                    IN IF ~N.ok \/ ~F.ok THEN Fail(S)
-                       ELSE IF s.card = "many" THEN SetVar(S, s.v, VSet(N.c, F.q))
-                       ELSE SetVar(S, s.v, IF F.q = <<>> THEN VEmpty(N.c) ELSE VInst(N.c, F.q[1]))
+                        F == IF N.ok THEN Filter(S, N.c, D, s.haswhere, s.w, s.card # "many") ELSE [q |-> <<>>, ok |-> FALSE, s |-> S]
+                    IN IF ~N.ok \/ ~F.ok THEN Fail(F.s)
+                       ELSE IF s.card = "many" THEN SetVar(F.s, s.v, VSet(N.c, F.q))
+                       ELSE SetVar(F.s, s.v, IF F.q = <<>> THEN VEmpty(N.c) ELSE VInst(N.c, F.q[1]))
       [] OTHER -> Fail(S)
 
 ExecB(b, S) == IF b = <<>> \/ S.ctl # "run" THEN S
